@@ -1023,3 +1023,134 @@ register("C14", gen=gen_adi, oracles=[oracle.c14], nontrivial=adi_nontrivial, ta
 _lvl("C14", "translation_validation",
      "set_factors, the Thomas solve and both half steps are modelled in Lean (Fs.Adi) with the C++ operation order and compared bit for bit; the oracle solves the two half-step systems of the Peaceman-Rachford scheme directly in exact rationals (face-averaged diffusivity, fixed-value borders) and checks zero border erosion. Thomas/pivot theorems exist for a formulation not yet tied to Fs.Adi.thomas.",
      "bit-exact differential correspondence with the Lean model + exact-rational direct-solve oracle")
+
+
+# ----------------------------------------------------------------------------- C11
+
+def gen_pool(rng, tier):
+    out = []
+    # (a) block arithmetic: exhaustive over small parameters in the thorough tier, sampled otherwise
+    combos = [(first, first + length, n, mn) for first in (0, 3) for length in range(0, 41) for n in range(1, 13) for mn in range(0, 13)]
+    if tier != "thorough":
+        combos = rng.sample(combos, 2400)
+    for k in range(0, len(combos), 300):
+        lines = ["grid pool"] + ["blocks %d %d %d %d" % c for c in combos[k:k + 300]]
+        out.append(("k%d" % (k // 300), lines))
+    # (b) API programs under injected schedules
+    nprog = counts(tier, 70, 600)
+    windows = [1, 2, 3, 4, 5, 6, 7, 8]
+    for k in range(nprog):
+        n = rng.choice([1, 1, 2, 2, 3, 4] if tier == "quick" else [1, 2, 3, 4, 6, 8, 12, 16])
+        prog = []
+        size = n
+        paused = False
+        for _ in range(rng.randint(2, 6)):
+            r = rng.random()
+            if r < 0.45:
+                # the router's own call pattern
+                m = rng.choice([size, size, rng.randint(1, 4 if tier == "quick" else 16)])
+                prog += ["resume", "resize:%d" % m]
+                size = m
+                first = rng.choice([0, 0, 5])
+                prog += ["run:%d:%d:%d" % (first, first + rng.choice([0, 1, 2, size, 17, 100, 1000]), rng.choice([0, 0, 1, 4, 64])), "pause"]
+                paused = True
+            elif r < 0.6:
+                prog.append("pause")
+                paused = True
+            elif r < 0.75:
+                prog.append("resume")
+                paused = False
+            elif r < 0.9:
+                first = rng.choice([0, 2])
+                prog.append("run:%d:%d:%d" % (first, first + rng.choice([1, 3, 10, 64, 500]), rng.choice([0, 0, 2, 16])))
+                paused = False     # run_tasks resumes a paused pool itself
+            else:
+                # resize is only ever issued on a pool that is not paused (the router resumes first)
+                m = rng.randint(1, 4 if tier == "quick" else 16)
+                prog += ["resume", "resize:%d" % m]
+                size = m
+                paused = False
+        if rng.random() < 0.3:
+            prog.append("stop")
+        r = rng.random()
+        if r < 0.2:
+            sched = []
+        elif r < 0.6:
+            # model-derived windows: hold a thread at one schedule point while the others go on
+            sched = ["d:%d:%s:%d" % (rng.choice(windows), rng.choice(["*", "0", str(rng.randrange(max(1, n)))]), rng.choice([2000, 20000]))]
+            if rng.random() < 0.3:
+                sched.append("d:%d:*:%d" % (rng.choice(windows), rng.choice([500, 5000])))
+        else:
+            sched = ["rand:%d:%d:%d" % (rng.randrange(1 << 30), rng.choice([50, 200, 500]), rng.choice([200, 2000]))]
+        out.append(("w%d" % k, ["grid pool", "pool %d %s %s" % (n, " ".join(sched), " ".join(prog))]))
+    return out
+
+
+def pool_tags(si):
+    t = []
+    for c in si.calls:
+        if c.cmd == "blocks":
+            t.append("blocks")
+            break
+        if c.cmd == "pool":
+            t.append("workers:" + c.toks[1])
+            if any(x.startswith("d:1:") for x in c.toks):
+                t.append("window:counted_not_yet_waiting")
+            if any(x.startswith("rand:") for x in c.toks):
+                t.append("random_delays")
+            if int((c.i("delays_fired") or ["0"])[0]) > 0:
+                t.append("delay_fired")
+    return sorted(set(t))
+
+
+def c11_runner(P, exe, model_ok, rng, tier, replay=None):
+    """the generic run (ASan build) + the same pool programs under the thread sanitizer"""
+    res = generic_runner(P, exe, model_ok, rng, tier, replay)
+    texe, tmsg = build.build_harness("tsan")
+    res["coverage"]["harness_tsan"] = tmsg.split("\n")[0]
+    if texe is None:
+        res["corr_broken"].append("thread-sanitizer harness does not build: " + tmsg[:300])
+        return res
+    if replay:
+        scns = read_blocks(replay)
+    else:
+        rng2 = random_mod.Random(rng.random())
+        scns = [s for s in corpus(P["id"]) + P["gen"](rng2, tier) if any(l.startswith("pool ") for l in s[1])]
+        scns = scns[: counts(tier, 40, 300)]
+    impl, notes, sans = run.run_harness(texe, scns, watchdog=P.get("watchdog", 20))
+    seen = set()
+    for r in sans:
+        if "ThreadSanitizer" not in r["kind"]:
+            continue
+        key = (r["kind"], r["where"])
+        if key in seen:
+            continue
+        seen.add(key)
+        sid = r.get("scn")
+        txt = run.scn_text((sid, dict(scns)[sid])) if sid in dict(scns) else ""
+        res["fails"].append(dict(clause="data_race", cause="pool_flag_publication" if "thread_pool" in r["text"] else "other",
+                                 witness="%s at %s (scenario %s)" % (r["kind"], r["where"], sid),
+                                 scenario_text=txt + "\n# report:\n# " + r["text"][:1800].replace("\n", "\n# ")))
+    for sid, lines in scns:
+        si = impl.get(sid)
+        if si is not None and (si.hang or (sid in notes and notes[sid][0] in (3, -9))):
+            res["fails"].append(dict(clause="terminates", cause=P["cause"](si, ("terminates", "")), witness="scenario %s under the thread sanitizer: call did not return" % sid,
+                                     scenario_text=run.scn_text((sid, lines))))
+    res["coverage"]["tsan_programs"] = len(scns)
+    res["coverage"]["tsan_reports"] = len(seen)
+    return res
+
+
+register("C11", gen=gen_pool, runner=c11_runner, oracles=[oracle.c11], cause=oracle.c11_cause, watchdog=8,
+         nontrivial=lambda si: any(c.cmd == "pool" and int(c.toks[1]) >= 2 for c in si.calls) or any(c.cmd == "blocks" for c in si.calls),
+         tags=pool_tags, sections={"blocks", "pool_done", "pause_paused", "resume_paused", "resize_size", "stop_stopped", "grid"} | {"run%d" % i for i in range(12)} | {"run%d_once" % i for i in range(12)},
+         lean_modules=["FsProofs.Properties.C11"],
+         theorems=["Fs.C11.blocks_exact", "Fs.C11.blocks_empty", "Fs.C11.index_in_unique_block", "Fs.C11.source_notifies_under_mutex",
+                   "Fs.C11.source_publication", "Fs.C11.source_rejects_lost_wakeup_schedule", "Fs.C11.no_stuck_state", "Fs.Hb.publication_iff"],
+         rule="(a) blocks(first,last,N,min): quick = 2400 sampled, thorough = all with last-first <= 40, N <= 12, min <= 12 (exhaustive); (b) API programs (the router's resume/resize/run_blocks/pause pattern, plus free mixes of run/pause/resume/resize/stop) on 1..4 (thorough ..16) workers under injected schedules: none, a thread held at one of the eight guarded schedule points (the windows the protocol model distinguishes), or seeded random delays; every program runs under ASan/UBSan and again under the thread sanitizer; non-trivial = block arithmetic, or a program on >= 2 workers",
+         trusted_base=["C++ memory model reduced to a view-based release/acquire fragment (Fs.Hb); mutex/condition-variable semantics modelled at contract level (notify_all wakes exactly the threads inside wait; no spurious wake-ups)",
+                       "delay injection explores interleavings by timing, it cannot force every schedule; resize/stop/destruction are exercised but not part of the protocol model",
+                       "memory orders and 'notify under the mutex' are regenerated from thread_pool_inl.hpp by translate.py"])
+_lvl("C11", "proof",
+     "Theorems: blocks_exact / index_in_unique_block (for every range, pool size and minimum size the blocks of the executed function mkBlocks are at most pool-size many, non-empty, contiguous, and every index lies in exactly one); no_stuck_state (transition system with N workers, flags, mutex, condition variable: for every N, every library-issued program of run_blocks/pause/resume and every interleaving, a state whose caller has not finished has an enabled thread - no lost wake-up, no deadlock), valid for the source because source_notifies_under_mutex is re-decided from the regenerated flag; source_publication (release/acquire orders regenerated from the source give happens-before for job data and results). resize/stop/destruction and real C++ data races are covered by the sanitizer runs only (partial).",
+     "Lean 4 inductive invariant over all interleavings + Nat arithmetic proofs + decide over translator-regenerated memory orders; correspondence: schedule-injection harness (guarded hooks) under ASan and TSan")
